@@ -19,11 +19,12 @@ pub use zerocopy::{FromBytes, FromZeros, Immutable, IntoBytes};
 
 // ------------------------------------------------------------------------------------------------
 // Share ledger
-pub const MAXSH: usize = 24;
+pub const MAXSH: usize = 16;
+pub const MAXPRE: usize = 8; // ledger entries a havocked pre-state may hold
 pub const D2D: u8 = 0; // driver -> device (device-readable)
 pub const D2H: u8 = 1; // device -> driver (device-writable)
 
-#[derive(Clone, Copy)]
+#[derive(Clone, Copy, kani::Arbitrary)]
 pub struct Sh {
     pub ptr: usize,
     pub len: usize,
@@ -271,6 +272,7 @@ pub fn mk_queue<H: Hal, const N: usize>(
 // Ghost state and the representation invariant
 pub const K: usize = 3; // outstanding chains tracked by the ghost
 pub const FREE: u8 = 0xff;
+pub const MAXC: usize = 4; // buffers per chain in harnesses
 
 pub struct Ghost<const N: usize> {
     /// FREE or chain id
@@ -314,17 +316,13 @@ pub fn havoc_private<H: Hal, const N: usize>(q: &mut VirtQueue<H, N>) {
     }
 }
 
-/// Havoc the ledger: `n` live entries with arbitrary ranges; direction/ap are constrained by inv().
+/// Havoc the ledger: `n` <= MAXPRE entries with arbitrary contents; inv_*() constrains the ones chains refer to.
 pub fn havoc_ledger(n: usize) {
+    kani::assume(n <= MAXPRE);
     unsafe {
         let mut i = 0;
-        while i < MAXSH {
-            if i < n {
-                let len: usize = kani::any();
-                kani::assume(len >= 1 && len <= u32::MAX as usize);
-                LG[i] = Sh { ptr: kani::any(), len, dir: kani::any(), ap: kani::any(), live: true, unshares: 0 };
-                kani::assume(LG[i].dir <= 1);
-            }
+        while i < MAXPRE {
+            LG[i] = kani::any();
             i += 1;
         }
         LG_N = n;
@@ -377,7 +375,8 @@ pub fn inv_direct<H: Hal, const N: usize>(q: &VirtQueue<H, N>, g: &Ghost<N>) -> 
         if ok && c > 0 {
             ok &= !g.indirect[k] && g.nbuf[k] == g.cnt[k] && g.n_in[k] <= g.cnt[k];
             ok &= g.head[k] < n16;
-            ok &= g.eb[k] + c <= unsafe { LG_N } && g.eb[k] < MAXSH;
+            ok &= g.eb[k] < MAXSH;
+            ok &= ok && g.eb[k] + c <= unsafe { LG_N };
             let mut cur = g.head[k] as usize;
             let mut s = 0;
             while s < N {
@@ -390,7 +389,8 @@ pub fn inv_direct<H: Hal, const N: usize>(q: &VirtQueue<H, N>, g: &Ghost<N>) -> 
                     if ok {
                         let sh = unsafe { LG[e] };
                         let want_dir = if (s as u16) < g.n_in[k] { D2D } else { D2H };
-                        ok &= sh.live && sh.dir == want_dir && sh.ap == q.access_platform;
+                        ok &= sh.live && sh.dir == want_dir && sh.ap == q.access_platform && sh.unshares == 0;
+                        ok &= sh.len >= 1 && sh.len <= u32::MAX as usize;
                         ok &= d.addr == lg_paddr(e) && d.len as usize == sh.len;
                         let mut f = 0u16;
                         if s + 1 < c {
@@ -424,7 +424,7 @@ pub fn inv_direct<H: Hal, const N: usize>(q: &VirtQueue<H, N>, g: &Ghost<N>) -> 
     while a < K {
         let mut bb = a + 1;
         while bb < K {
-            if g.cnt[a] > 0 && g.cnt[bb] > 0 {
+            if ok && g.cnt[a] > 0 && g.cnt[bb] > 0 {
                 ok &= g.eb[a] + g.cnt[a] as usize <= g.eb[bb] || g.eb[bb] + g.cnt[bb] as usize <= g.eb[a];
             }
             bb += 1;
@@ -489,7 +489,8 @@ pub fn inv_indirect<H: Hal, const N: usize>(q: &VirtQueue<H, N>, g: &Ghost<N>, t
                     let sh = unsafe { LG[g.eb[k]] };
                     let want_dir = if g.n_in[k] == 1 { D2D } else { D2H };
                     ok &= g.eb[k] + 1 <= unsafe { LG_N };
-                    ok &= sh.live && sh.dir == want_dir && sh.ap == q.access_platform;
+                    ok &= sh.live && sh.dir == want_dir && sh.ap == q.access_platform && sh.unshares == 0;
+                    ok &= sh.len >= 1 && sh.len <= u32::MAX as usize;
                     ok &= d.addr == lg_paddr(g.eb[k]) && d.len as usize == sh.len;
                     ok &= d.flags.bits() == if want_dir == D2H { 2 } else { 0 };
                     ok &= q.indirect_lists[h].is_none() && tbl[k].is_none();
@@ -497,9 +498,20 @@ pub fn inv_indirect<H: Hal, const N: usize>(q: &VirtQueue<H, N>, g: &Ghost<N>, t
                     let te = g.eb[k] + nb;
                     ok &= te < unsafe { LG_N };
                     let sh = unsafe { LG[te % MAXSH] };
-                    ok &= sh.live && sh.dir == D2D && sh.ap == q.access_platform && sh.len == 16 * nb;
+                    ok &= sh.live && sh.dir == D2D && sh.ap == q.access_platform && sh.len == 16 * nb && sh.unshares == 0;
                     ok &= d.addr == lg_paddr(te) && d.len as usize == 16 * nb && d.flags.bits() == 4;
                     ok &= tbl[k].is_some() && q.indirect_lists[h] == tbl[k];
+                    ok &= nb <= MAXC;
+                    let mut s = 0;
+                    while s < MAXC {
+                        if ok && s < nb {
+                            let bs = unsafe { LG[(g.eb[k] + s) % MAXSH] };
+                            let wd = if (s as u16) < g.n_in[k] { D2D } else { D2H };
+                            ok &= bs.live && bs.dir == wd && bs.ap == q.access_platform && bs.unshares == 0;
+                            ok &= bs.len >= 1 && bs.len <= u32::MAX as usize;
+                        }
+                        s += 1;
+                    }
                     if let Some(t) = tbl[k] {
                         ok &= t.len() == nb && sh.ptr == t.as_ptr() as *mut u8 as usize;
                     }
@@ -523,9 +535,9 @@ pub fn inv_indirect<H: Hal, const N: usize>(q: &VirtQueue<H, N>, g: &Ghost<N>, t
     while a < K {
         let mut bb = a + 1;
         while bb < K {
-            if g.cnt[a] > 0 && g.cnt[bb] > 0 {
-                let la = g.nbuf[a] as usize + 1;
-                let lb = g.nbuf[bb] as usize + 1;
+            if ok && g.cnt[a] > 0 && g.cnt[bb] > 0 {
+                let la = if g.nbuf[a] > 1 { g.nbuf[a] as usize + 1 } else { 1 };
+                let lb = if g.nbuf[bb] > 1 { g.nbuf[bb] as usize + 1 } else { 1 };
                 ok &= g.eb[a] + la <= g.eb[bb] || g.eb[bb] + lb <= g.eb[a];
             }
             bb += 1;
@@ -533,6 +545,216 @@ pub fn inv_indirect<H: Hal, const N: usize>(q: &VirtQueue<H, N>, g: &Ghost<N>, t
         a += 1;
     }
     ok
+}
+
+/// Constructive generator of an arbitrary INV state (direct mode).  A symbolic permutation `ord` of the
+/// descriptors is cut into chain 0 | chain 1 | chain 2 | free list; every state satisfying inv_direct is
+/// the image of some (ord, cuts, directions, tails): the free list and each chain are sequences of pairwise
+/// distinct descriptors, what `next` holds at the end of each sequence is arbitrary (< N), free descriptors
+/// carry arbitrary stale addr/len/flags, and ghost chain ids are labels.  Ledger entries of the chains are
+/// laid out contiguously from 0 (entries of long-gone chains are dead and irrelevant).
+pub fn gen_direct<H: Hal, const N: usize>(q: &mut VirtQueue<H, N>, chain0: Option<(usize, usize)>, maxch: usize) -> Ghost<N> {
+    let mut ord = [0u16; N];
+    let mut i = 0;
+    while i < N {
+        let v: u16 = kani::any();
+        kani::assume((v as usize) < N);
+        ord[i] = v;
+        i += 1;
+    }
+    i = 0;
+    while i < N {
+        let mut j = i + 1;
+        while j < N {
+            kani::assume(ord[i] != ord[j]);
+            j += 1;
+        }
+        i += 1;
+    }
+    let mut c: [usize; K] = kani::any();
+    if let Some((c0, _)) = chain0 { c[0] = c0; }
+    kani::assume(c[0] <= N && c[1] <= N && c[2] <= N && c[0] + c[1] + c[2] <= N);
+    if maxch < 3 { kani::assume(c[2] == 0); }
+    if maxch < 2 { kani::assume(c[1] == 0); }
+    let mut nin: [usize; K] = kani::any();
+    if let Some((_, i0)) = chain0 { nin[0] = i0; }
+    kani::assume(nin[0] <= c[0] && nin[1] <= c[1] && nin[2] <= c[2]);
+    let total = c[0] + c[1] + c[2];
+    let mut g = Ghost::<N> {
+        owner: [FREE; N],
+        head: [0; K],
+        cnt: [c[0] as u16, c[1] as u16, c[2] as u16],
+        nbuf: [c[0] as u16, c[1] as u16, c[2] as u16],
+        n_in: [nin[0] as u16, nin[1] as u16, nin[2] as u16],
+        indirect: [false; K],
+        eb: [0, c[0], c[0] + c[1]],
+    };
+    let mut p = 0;
+    while p < N {
+        let d = ord[p] as usize;
+        let (k, s) = if p < c[0] { (0, p) } else if p < c[0] + c[1] { (1, p - c[0]) } else if p < total { (2, p - c[0] - c[1]) } else { (K, p - total) };
+        let seg_end = if k < K { g.eb[k] + c[k] } else { N };
+        let tail: u16 = kani::any();
+        kani::assume((tail as usize) < N);
+        let next = if p + 1 < seg_end { ord[p + 1] } else { tail };
+        if k < K {
+            if s == 0 {
+                g.head[k] = ord[p];
+            }
+            g.owner[d] = k as u8;
+            let e = g.eb[k] + s;
+            let len: usize = kani::any();
+            kani::assume(len >= 1 && len <= u32::MAX as usize);
+            let dir = if s < nin[k] { D2D } else { D2H };
+            unsafe {
+                LG[e] = Sh { ptr: kani::any(), len, dir, ap: q.access_platform, live: true, unshares: 0 };
+            }
+            let mut f = 0u16;
+            if s + 1 < c[k] { f |= 1; }
+            if dir == D2H { f |= 2; }
+            q.desc_shadow[d].addr = lg_paddr(e);
+            q.desc_shadow[d].len = len as u32;
+            q.desc_shadow[d].flags = DescFlags::from_bits_retain(f);
+        } else {
+            q.desc_shadow[d].addr = kani::any();
+            q.desc_shadow[d].len = kani::any();
+            q.desc_shadow[d].flags = DescFlags::from_bits_retain(kani::any::<u16>() & 7);
+        }
+        q.desc_shadow[d].next = next;
+        p += 1;
+    }
+    let fh: u16 = kani::any();
+    kani::assume((fh as usize) < N);
+    q.free_head = if total < N { ord[total % N] } else { fh };
+    q.num_used = total as u16;
+    q.avail_idx = kani::any();
+    q.last_used_idx = kani::any();
+    unsafe { LG_N = total; }
+    g
+}
+
+/// Constructive generator of an arbitrary INV state for a queue with indirect descriptors enabled: every
+/// outstanding chain holds exactly one descriptor of the main table (a single buffer, or an indirect
+/// table of 2..=MAXC buffers).  Chain 0 (the one a harness pops) has `nb0` buffers and, if nb0 > 1, a real
+/// heap table; the tables of the other chains are never dereferenced by the step under test and are
+/// represented by their pointer identity only.
+pub fn gen_indirect<H: Hal, const N: usize>(q: &mut VirtQueue<H, N>, nb0: usize, nin0: usize, maxch: usize) -> (Ghost<N>, [Option<NonNull<[Descriptor]>>; K]) {
+    let mut ord = [0u16; N];
+    let mut i = 0;
+    while i < N {
+        let v: u16 = kani::any();
+        kani::assume((v as usize) < N);
+        ord[i] = v;
+        i += 1;
+    }
+    i = 0;
+    while i < N {
+        let mut j = i + 1;
+        while j < N {
+            kani::assume(ord[i] != ord[j]);
+            j += 1;
+        }
+        i += 1;
+    }
+    // chains present: a prefix of the K ghost slots
+    let nch: usize = kani::any();
+    kani::assume(nch <= maxch && nch <= K && nch <= N);
+    if nb0 > 0 { kani::assume(nch >= 1); }
+    let mut nb: [usize; K] = kani::any();
+    let mut nin: [usize; K] = kani::any();
+    if nb0 > 0 { nb[0] = nb0; nin[0] = nin0; }
+    let mut g = Ghost::<N> { owner: [FREE; N], head: [0; K], cnt: [0; K], nbuf: [0; K], n_in: [0; K], indirect: [false; K], eb: [0; K] };
+    let mut tbl: [Option<NonNull<[Descriptor]>>; K] = [None; K];
+    let mut e = 0usize;
+    let mut k = 0;
+    while k < K {
+        if k < nch {
+            kani::assume(nb[k] >= 1 && nb[k] <= MAXC && nin[k] <= nb[k]);
+            let d = ord[k] as usize;
+            g.owner[d] = k as u8;
+            g.head[k] = ord[k];
+            g.cnt[k] = 1;
+            g.nbuf[k] = nb[k] as u16;
+            g.n_in[k] = nin[k] as u16;
+            g.indirect[k] = nb[k] > 1;
+            g.eb[k] = e;
+            let mut s = 0;
+            while s < MAXC {
+                if s < nb[k] {
+                    let len: usize = kani::any();
+                    kani::assume(len >= 1 && len <= u32::MAX as usize);
+                    unsafe {
+                        LG[e + s] = Sh { ptr: kani::any(), len, dir: if s < nin[k] { D2D } else { D2H }, ap: q.access_platform, live: true, unshares: 0 };
+                    }
+                }
+                s += 1;
+            }
+            if nb[k] == 1 {
+                let sh = unsafe { LG[e] };
+                q.desc_shadow[d].addr = lg_paddr(e);
+                q.desc_shadow[d].len = sh.len as u32;
+                q.desc_shadow[d].flags = DescFlags::from_bits_retain(if sh.dir == D2H { 2 } else { 0 });
+                e += 1;
+            } else {
+                let te = e + nb[k];
+                let tp: NonNull<[Descriptor]> = if k == 0 && nb0 > 1 {
+                    let mut bx = <[Descriptor]>::new_box_zeroed_with_elems(nb0).unwrap();
+                    let mut s = 0;
+                    while s < MAXC {
+                        if s < nb0 {
+                            let sh = unsafe { LG[e + s] };
+                            bx[s].addr = lg_paddr(e + s);
+                            bx[s].len = sh.len as u32;
+                            let mut f = 0u16;
+                            if s + 1 < nb0 { f |= 1; }
+                            if sh.dir == D2H { f |= 2; }
+                            bx[s].flags = DescFlags::from_bits_retain(f);
+                            bx[s].next = (s + 1) as u16;
+                        }
+                        s += 1;
+                    }
+                    NonNull::from(alloc::boxed::Box::leak(bx))
+                } else {
+                    NonNull::slice_from_raw_parts(NonNull::<Descriptor>::dangling(), nb[k])
+                };
+                unsafe {
+                    LG[te] = Sh { ptr: tp.as_ptr() as *mut u8 as usize, len: 16 * nb[k], dir: D2D, ap: q.access_platform, live: true, unshares: 0 };
+                }
+                q.desc_shadow[d].addr = lg_paddr(te);
+                q.desc_shadow[d].len = (16 * nb[k]) as u32;
+                q.desc_shadow[d].flags = DescFlags::from_bits_retain(4);
+                q.indirect_lists[d] = Some(tp);
+                tbl[k] = Some(tp);
+                e = te + 1;
+            }
+            let tail: u16 = kani::any();
+            kani::assume((tail as usize) < N);
+            q.desc_shadow[d].next = tail;
+        }
+        k += 1;
+    }
+    // free list
+    let mut p = 0;
+    while p < N {
+        if p >= nch {
+            let d = ord[p] as usize;
+            let tail: u16 = kani::any();
+            kani::assume((tail as usize) < N);
+            q.desc_shadow[d].addr = kani::any();
+            q.desc_shadow[d].len = kani::any();
+            q.desc_shadow[d].flags = DescFlags::from_bits_retain(kani::any::<u16>() & 7);
+            q.desc_shadow[d].next = if p + 1 < N { ord[p + 1] } else { tail };
+        }
+        p += 1;
+    }
+    let fh: u16 = kani::any();
+    kani::assume((fh as usize) < N);
+    q.free_head = if nch < N { ord[nch % N] } else { fh };
+    q.num_used = nch as u16;
+    q.avail_idx = kani::any();
+    q.last_used_idx = kani::any();
+    unsafe { LG_N = e; }
+    (g, tbl)
 }
 
 /// The specification's notification predicate (virtio 1.x, vring_need_event).
